@@ -57,20 +57,40 @@ deriving Repr, DecidableEq, Inhabited
 
 namespace Doc
 mutual
+/-- Work measure of a document that is *on the machine's stack* (it will not be normalised as a whole any more).
+A `choice` counts only its larger alternative — the machine and the lookaheads enter exactly one — so a sub-document
+shared by both alternatives (as the comment printers do) is counted once.  The broken alternative of a lazily
+normalising copy and the body of an `align` will be normalised when read; they are measured with `rsize`. -/
 def size : Doc → Nat
   | nil => 1 | text _ => 1 | hardline => 1
   | cat ds => 1 + sizes ds
   | nest _ d => 1 + size d
   | group d => 1 + size d
-  | choice _ b f => 1 + 2 * size b + size f
+  | choice l b f => 1 + max (if l then rsize b else size b) (size f)
   | ab d => 1 + size d
   | fill ds => 2 + sizesF ds
   | ann _ d => 2 + size d
-  | align d => 3 + 2 * size d
+  | align d => 3 + rsize d
+  | pstr sp => 2 + sp.bound
+/-- Work measure of a document that may still be normalised: `size (normalize d) ≤ rsize d`.  It differs from `size`
+only by pre-paying the `AlwaysBreak` wrapper `Fill.normalize` may add and by measuring broken alternatives raw. -/
+def rsize : Doc → Nat
+  | nil => 1 | text _ => 1 | hardline => 1
+  | cat ds => 1 + rsizes ds
+  | nest _ d => 1 + rsize d
+  | group d => 1 + rsize d
+  | choice _ b f => 1 + max (rsize b) (size f)
+  | ab d => 1 + rsize d
+  | fill ds => 3 + sizesF ds
+  | ann _ d => 2 + rsize d
+  | align d => 3 + rsize d
   | pstr sp => 2 + sp.bound
 def sizes : List Doc → Nat
   | [] => 0
   | d :: ds => size d + sizes ds
+def rsizes : List Doc → Nat
+  | [] => 0
+  | d :: ds => rsize d + rsizes ds
 def sizesF : List Doc → Nat
   | [] => 0
   | d :: ds => 1 + size d + sizesF ds
@@ -88,6 +108,27 @@ theorem size_pos (d : Doc) : 0 < size d := by
   induction xs with
   | nil => simp [sizes]
   | cons x xs ih => simp [sizes, ih]; omega
+
+mutual
+theorem size_le_rsize : (d : Doc) → size d ≤ rsize d
+  | .nil => by simp [size, rsize]
+  | .text _ => by simp [size, rsize]
+  | .hardline => by simp [size, rsize]
+  | .cat ds => by have := sizes_le_rsizes ds; simp only [size, rsize]; omega
+  | .nest _ d => by have := size_le_rsize d; simp only [size, rsize]; omega
+  | .group d => by have := size_le_rsize d; simp only [size, rsize]; omega
+  | .ab d => by have := size_le_rsize d; simp only [size, rsize]; omega
+  | .choice l b f => by
+      have := size_le_rsize b
+      simp only [size, rsize]; split <;> omega
+  | .fill ds => by simp only [size, rsize]; omega
+  | .ann _ d => by have := size_le_rsize d; simp only [size, rsize]; omega
+  | .align d => by simp [size, rsize]
+  | .pstr _ => by simp [size, rsize]
+theorem sizes_le_rsizes : (ds : List Doc) → sizes ds ≤ rsizes ds
+  | [] => by simp [sizes, rsizes]
+  | d :: r => by have := size_le_rsize d; have := sizes_le_rsizes r; simp only [sizes, rsizes]; omega
+end
 
 def line : Doc := .choice false .hardline (.text [32])
 def softline : Doc := .choice false .hardline .nil
